@@ -23,14 +23,14 @@ import (
 
 // MapLoop describes one analysed loop.
 type MapLoop struct {
-	Fn      *ssa.Function
-	Range   *ssa.Range
-	Pos     token.Pos
-	ClassA  []string // value depends on order
-	ClassB  []string // which failure is reported depends on order
-	Writes  int
-	Exits   int
-	Sorted  bool // the loop only collects into a slice that is sorted afterwards
+	Fn     *ssa.Function
+	Range  *ssa.Range
+	Pos    token.Pos
+	ClassA []string // value depends on order
+	ClassB []string // which failure is reported depends on order
+	Writes int
+	Exits  int
+	Sorted bool // the loop only collects into a slice that is sorted afterwards
 }
 
 type keyset struct {
@@ -240,12 +240,12 @@ func analyseMapLoop(p *Prog, fn *ssa.Function, rg *ssa.Range) *MapLoop {
 	}
 
 	type write struct {
-		loc   string
-		ks    keyset
-		val   string // "const:..." or "dep"
-		pos   token.Pos
-		kind  string // store | mapupdate-k | append | call | collect
-		root  ssa.Value
+		loc  string
+		ks   keyset
+		val  string // "const:..." or "dep"
+		pos  token.Pos
+		kind string // store | mapupdate-k | append | call | collect
+		root ssa.Value
 	}
 	var writes []write
 	definedInIter := func(v ssa.Value) bool {
